@@ -3,6 +3,7 @@ import Seccomp.Model.Oracle
 import Seccomp.Gen.Tables
 import Std.Data.HashMap
 import Seccomp.Driver.Loader
+import Seccomp.Driver.Text
 /-!
 # Line-protocol driver of the executable model (`lean_exe model`)
 
@@ -293,6 +294,7 @@ def handle (A : Arches) (line : String) : String :=
      | some (r, []) => r
      | _ => "BAD-REQUEST")
   | "H" :: rest => Driver.Loader.handle rest
+  | "TXT" :: rest => Driver.Text.handle rest
   | _ => "BAD-REQUEST"
 
 partial def loop (A : Arches) (hin hout : IO.FS.Stream) : IO Unit := do
